@@ -295,9 +295,12 @@ def check_clients(ctx):
     # the seeded result is the native client's
     import random
     from props import c04
-    for k in range(ctx.budget(2, 10)):
-        c = dict(sampler='smc', b=ctx.rng.randint(2, 4), n=ctx.rng.randint(4, 8), form='thresholds', value=[1.5, 0.9], prior='uniform',
-                 seed=ctx.rng.randrange(2**32), mpb=ctx.rng.randint(3, 5), kind='clients-smc')
+    # its own generator: the cases must not depend on how many random choices the earlier parts of the run consumed (their budgets
+    # change with the tier and with source drift); every max_parallel_batches value 3..5 occurs twice
+    lrng = random.Random(7001 + ctx.seed)
+    for k in range(6 if ctx.quick() else 18):
+        c = dict(sampler='smc', b=lrng.randint(2, 4), n=lrng.randint(4, 8), form='thresholds', value=[1.5, 0.9], prior='uniform',
+                 seed=lrng.randrange(2**32), mpb=3 + k % 3, kind='clients-smc')
         ctx.case(c, True)
         base = c04.run_sampler(dict(c, mpb=1), native.Client())[0]
         lazy = c04.ScheduledClient(random.Random(k), 0, 0, cores=2)
